@@ -275,7 +275,8 @@ def mutate_name(tpl, name, s, e, attrs, mut):
                 return None
         else:
             bad = {r"\d{5}": "1234x", r"[A-Z]{2}": "a1",
-                   r"[a-z]\d": "Q7"}.get(spec["regex"])
+                   r"[a-z]\d": "Q7", r"\d\d\d\d\d": "1234x",
+                   r"\w\d": "a-"}.get(spec["regex"])
             if bad is None:
                 return None
         return prefix + rel[:a] + bad + rel[b:]
